@@ -104,7 +104,10 @@ void Application::Stop(bool runtimeRemoved)
 
 Application::~Application()
 {
-	m_Instance = nullptr;
+	/* Only the registered singleton may unregister itself: a second Application object (e.g. a temporary created
+	 * by the constructor call `IcingaApplication()` in a script) must not clear the instance the daemon uses. */
+	if (m_Instance.get() == this)
+		m_Instance = nullptr;
 }
 
 void Application::Exit(int rc)
